@@ -164,8 +164,21 @@ def gen_cmdline(rng, small=True):
     rng.shuffle(attach)
     argv += attach
     meta['loads'] = loads
-    dist = rng.choice(['none', 'none', 'skin', 'skin-tag', 'res', 'coat', 'coat-tag'])
-    if dist == 'skin':
+    dist = rng.choice(['none', 'none', 'skin', 'skin-tag', 'res', 'coat', 'coat-tag', 'multi', 'multi'])
+    if dist == 'multi':
+        # several per-object loads of the same kind, possibly an all-wires load of the other kind
+        for t in rng.sample(tags, min(len(tags), rng.randint(1, 3))):
+            if rng.random() < 0.5:
+                argv.append('--skin-effect-conductivity=%s,%d' % (rng.choice(['3.7e7', '5.8e7', '1e6']), t))
+            else:
+                argv.append('--skin-effect-resistivity=%s,%d' % (rng.choice(['2.8e-8', '1.7e-8']), t))
+        k = rng.choice(['none', 'all', 'tags'])
+        if k == 'all':
+            argv.append('--insulation-load=%s,2.3' % g(seg / 10))
+        elif k == 'tags':
+            for t in rng.sample(tags, min(len(tags), rng.randint(1, 3))):
+                argv.append('--insulation-load=%s,%s,%d' % (g(seg / rng.choice([8, 10, 12])), rng.choice(['2.3', '3']), t))
+    elif dist == 'skin':
         argv.append('--skin-effect-conductivity=5.8e7')
     elif dist == 'skin-tag':
         argv.append('--skin-effect-conductivity=3.7e7,%d' % rng.choice(tags))
